@@ -174,6 +174,23 @@ def run(ctx):
         def info(self, *a, **k):
             return None
     c01.clause_e(NameOnly(ctx), fx, config=C)
+    # ---- M7: a refused issuance consumes no salt: whatever can refuse the claims (path syntax, reserved names) runs before the walk that
+    # builds disclosures; inside the payload builders (and whatever dispatches between them) no Err is constructed — an error raised there
+    # comes after sibling disclosures have popped their salts, so the next issuance no longer starts where the queue says
+    import callgraph as _cg
+    bl = [b_ for b_ in (getattr(I, "obj_builder", None), getattr(I, "list_builder", None)) if b_ is not None]
+    bnames = set(b_.name for b_ in bl)
+    inner = [f_ for f_ in I.fns if f_.kind != "closure" and (f_.name in bnames or (bnames & _cg.reachable_from(I.g, [f_.name]) and any(f_.name in _cg.reachable_from(I.g, [bn]) for bn in bnames)))]
+    nb7 = 0
+    for f_ in inner:
+        nb7 += 1
+        errs = [e for e in cfg.exit_sites(f_) if e["kind"] == "Err"]
+        if errs:
+            ctx.finding("C16.M7", f_, "walk-infallible", "the payload walk can refuse the claims itself (an Err constructed at line %s): disclosures built for earlier siblings have already consumed "
+                        "queued salts, so a refused call changes what the next issuance gets" % errs[0].get("line"), line=errs[0].get("line"), config=C)
+        else:
+            ctx.ok("C16.M7", f_, "walk-infallible", "no Err is constructed inside the payload walk: every refusal happens before the first salt is drawn", config=C)
+    ctx.floor("C16.M7", "payload builders judged", nb7, 2, config=C)
     # ---- M6: "the same claims, strategy and salts give identical output": nothing an earlier issuance left in the issuer instance can
     # reach a later output (the field-flow rule of C11.S re-judged on the mock_salts MIR for the issuer)
     st6 = c11.stale_fields(fx, imodel.ISTRUCT, imodel.ISSUE)
